@@ -17,6 +17,7 @@ import (
 	"time"
 
 	metav1 "k8s.io/apimachinery/pkg/apis/meta/v1"
+	"k8s.io/apimachinery/pkg/types"
 	"k8s.io/apiserver/pkg/authentication/user"
 	"k8s.io/apiserver/pkg/authorization/authorizer"
 	"k8s.io/component-base/featuregate"
@@ -367,9 +368,13 @@ type sys struct {
 	cur      map[string]string // current value per dimension of the latest object of a
 	latestA  *proxyv1alpha1.UpstreamCluster
 	latestB  *proxyv1alpha1.UpstreamCluster
+	latestN  *proxyv1alpha1.UpstreamCluster // a third object whose own NAME is "x", a server name cluster a may claim
 	pending  map[string]*proxyv1alpha1.UpstreamCluster
 	redeliv  int
 	maxRedel int
+	// what the control plane stamps on the object: the generation counts the versions of one incarnation (1 for a new
+	// object, also for one re-created under an old name), the UID names the incarnation
+	genA, incA int64
 }
 
 func (s *sys) build() *proxyv1alpha1.UpstreamCluster {
@@ -379,6 +384,8 @@ func (s *sys) build() *proxyv1alpha1.UpstreamCluster {
 			d.set(o, v)
 		}
 	}
+	o.Generation = s.genA
+	o.UID = types.UID(fmt.Sprintf("a-%d", s.incA))
 	return o
 }
 
@@ -447,6 +454,16 @@ func specWith(dimFilter map[string]bool, name string, coreOnly bool) xstate.Spec
 					}
 					evs = append(evs, "a "+d.name+"="+v)
 				}
+				// the object is deleted and created again under the same name with another value, and the informer has
+				// stored the new object before the worker gets to the queued deletion
+				if s.latestA != nil {
+					for _, v := range values {
+						if s.cur[d.name] != v {
+							evs = append(evs, "a recreated-with "+d.name+"="+v)
+							break
+						}
+					}
+				}
 			}
 			if s.latestA != nil {
 				evs = append(evs, "a duplicate", "delete a")
@@ -456,8 +473,13 @@ func specWith(dimFilter map[string]bool, name string, coreOnly bool) xstate.Spec
 				if s.latestB != nil {
 					evs = append(evs, "delete b")
 				}
+				if s.latestN == nil {
+					evs = append(evs, "create object named x")
+				} else {
+					evs = append(evs, "delete object named x")
+				}
 			}
-			for _, c := range []string{"a", "b"} {
+			for _, c := range []string{"a", "b", "n"} {
 				if s.pending[c] != nil && (unboundedRequeue || s.redeliv < 3) {
 					evs = append(evs, "redeliver "+c)
 				}
@@ -480,13 +502,39 @@ func specWith(dimFilter map[string]bool, name string, coreOnly bool) xstate.Spec
 				s.latestA = o
 				res, err := s.rig.Apply(o)
 				deliver("a", o, res, err)
+			case f[0] == "a" && f[1] == "recreated-with":
+				kv := strings.SplitN(f[2], "=", 2)
+				oldObj, oldCur, oldGen, oldInc := s.latestA, s.cur, s.genA, s.incA
+				s.cur = map[string]string{kv[0]: kv[1]}
+				s.genA, s.incA = 1, s.incA+1
+				o := s.build()
+				if !valid(o) {
+					invalidSkipped++
+					s.cur, s.genA, s.incA = oldCur, oldGen, oldInc
+					return nil
+				}
+				s.latestA = o
+				s.rig.Store(o)                 // the informer's cache already holds the new incarnation
+				_, _ = s.rig.Redeliver(oldObj) // the worker handles the deletion event of the old one ...
+				res, err := s.rig.Redeliver(o) // ... and then the creation event
+				deliver("a", o, res, err)
 			case f[0] == "a":
 				kv := strings.SplitN(f[1], "=", 2)
 				old, had := s.cur[kv[0]]
 				s.cur[kv[0]] = kv[1]
+				oldGen := s.genA
+				if s.latestA == nil {
+					s.genA, s.incA = 1, s.incA+1
+				} else {
+					s.genA++
+				}
 				o := s.build()
 				if !valid(o) {
 					invalidSkipped++
+					s.genA = oldGen
+					if s.latestA == nil {
+						s.incA--
+					}
 					// the control plane would not have admitted this version: it is not part of any history
 					if had {
 						s.cur[kv[0]] = old
@@ -498,6 +546,18 @@ func specWith(dimFilter map[string]bool, name string, coreOnly bool) xstate.Spec
 				s.latestA = o
 				res, err := s.rig.Apply(o)
 				deliver("a", o, res, err)
+			case f[0] == "create": // "create object named x"
+				o := objB()
+				o.Name = "x"
+				o.Spec.Servers[0].Endpoint = "https://127.0.0.1:5"
+				s.latestN = o
+				res, err := s.rig.Apply(o)
+				deliver("n", o, res, err)
+			case f[0] == "delete" && f[1] == "object":
+				o := s.latestN
+				s.latestN = nil
+				delete(s.pending, "n") // the queue finds the object gone
+				_, _ = s.rig.Delete(o)
 			case f[0] == "b":
 				var o *proxyv1alpha1.UpstreamCluster
 				if f[1] == "none" {
@@ -512,6 +572,7 @@ func specWith(dimFilter map[string]bool, name string, coreOnly bool) xstate.Spec
 				if f[1] == "a" {
 					o := s.latestA
 					s.latestA = nil
+					s.genA = 0
 					s.cur = map[string]string{}
 					_, _ = s.rig.Delete(o)
 				} else {
@@ -543,7 +604,7 @@ func specWith(dimFilter map[string]bool, name string, coreOnly bool) xstate.Spec
 			if s.latestB != nil {
 				lb = kit.JSON(s.latestB.Spec)
 			}
-			return fmt.Sprint(la, lb, p, fingerprint(s.rig, "a"), fingerprint(s.rig, "b"))
+			return fmt.Sprint(la, lb, s.latestN != nil, p, fingerprint(s.rig, "a"), fingerprint(s.rig, "b"), fingerprint(s.rig, "x"))
 		},
 		Close: func(si interface{}) { si.(*sys).rig.Close() },
 	}
@@ -552,7 +613,7 @@ func specWith(dimFilter map[string]bool, name string, coreOnly bool) xstate.Spec
 // compare: in a quiescent state (nothing waits for redelivery) and with latest objects that do not compete
 // for a name, the history gateway must look exactly like a fresh gateway given only the latest objects.
 func (s *sys) compare(e string) error {
-	if len(s.pending) > 0 || overlap(names(s.latestA), names(s.latestB)) {
+	if len(s.pending) > 0 || overlap(names(s.latestA), names(s.latestB)) || overlap(names(s.latestA), names(s.latestN)) || overlap(names(s.latestB), names(s.latestN)) {
 		return nil
 	}
 	fresh := ctlrig.New()
@@ -567,7 +628,12 @@ func (s *sys) compare(e string) error {
 			return nil // the latest object cannot be applied even by a fresh gateway (C16 judges that)
 		}
 	}
-	for _, c := range []string{"a", "b"} {
+	if s.latestN != nil {
+		if res, err := fresh.Apply(s.latestN.DeepCopy()); requeued(res, err) {
+			return nil
+		}
+	}
+	for _, c := range []string{"a", "b", "x"} {
 		h, f := fingerprint(s.rig, c), fingerprint(fresh, c)
 		for i := range h {
 			if i >= len(f) || h[i] != f[i] {
